@@ -42,6 +42,15 @@ type Check struct {
 	NotCovered  []string // the part of the statement that is not decided
 	NeedsCG     bool
 	Run         func(c *Ctx)
+	Imports     []Import // obligations shared with sibling properties
+}
+
+// Import names clauses of another property's check that this property also
+// carries (an empty clause list means the whole check).
+type Import struct {
+	From    string
+	Clauses []string
+	Why     string
 }
 
 // Ctx collects the obligations of one property run.
@@ -55,6 +64,8 @@ type Ctx struct {
 	Funcs map[string]bool
 	Sites int
 	Notes []string
+	// Imported: sibling properties whose obligations were added (registry imports)
+	Imported map[string]bool
 }
 
 func NewCtx(p *Program, ch *Check, tier string) *Ctx {
@@ -164,7 +175,7 @@ func (c *Ctx) Finish(verifDir string, ff *FindingsFile, wall float64, extra map[
 	sort.SliceStable(c.Obls, func(i, j int) bool { return c.Obls[i].Key < c.Obls[j].Key })
 	known := map[string]Finding{}
 	for _, f := range ff.Findings {
-		if f.Property == c.Check.ID && f.Status == "known" {
+		if (f.Property == c.Check.ID || c.Imported[f.Property]) && f.Status == "known" {
 			known[f.Key] = f
 		}
 	}
